@@ -207,6 +207,25 @@ def run(rep, tier, seed, proof_ok):
             rep.violation("history-dependent:redefinition-after-helper-removed",
                           f"after an earlier evaluation in the same process the redefined function gives {s1[:80]}, a fresh process gives {s2[:80]}",
                           {"same_process": sp, "fresh": fr, "same_process_result": s1, "fresh_result": s2})
+    # a relative path value with '..' segments, analysed from two working directories
+    import values as V
+    pprog = {"pkg": "vpp", "ext_helpers": {}, "root": ("m0", "feat"), "modules": {"m0": {"vars": {"DATA_DIR": ["path", b"../data/in.csv".hex()]}, "funcs": [
+        {"name": "feat", "params": [{"name": "a", "default": ["path", b"../../x".hex()]}], "annot": "/feat", "salt": "ft0", "stmts": [], "reads": ["DATA_DIR"]}]}}}
+    pcall = {"a": "call", "mod": "m0", "fn": "feat", "style": "direct", "pos": [], "kw": []}
+    psigs = {}
+    for nm, kw in (("cwd=default", {}), ("cwd=elsewhere", dict(cwd="deep/er/dir")), ("cwd=other", dict(cwd="x"))):
+        recs = run_job(("baseline", [("prog", pprog), ("act", pcall)], dict(kw, store_kind="memory")))
+        rep.case("relative-path-value:" + nm)
+        if isinstance(recs, dict):
+            rep.violation("harness-error:c03", "relative-path scenario could not be run: " + recs["error"][-300:], {}, no_input=True)
+            continue
+        psigs[nm] = hist.impl_obs(recs[-1])["sigs"]
+        d = [x for x in hist.compare(recs[-1]) if x[0] in ("signatures", "outcome")]
+        if d:
+            rep.violation("model-mismatch:signatures", f"relative path value ({nm}): implementation and model disagree: {json.dumps(d)[:300]}", {"variant": nm, "diffs": d})
+    if len(set(psigs.values())) > 1:
+        rep.violation("env-dependent:cwd", "the signature of a function reading a relative path value with '..' depends on the working directory",
+                      {"signatures_by_cwd": psigs, "program": pprog})
     # name clash between a function of one module and a tracked variable of another
     ncs = name_clash_scenario()
     nres = [run_job((n, ev, dict(store_kind="memory"))) for n, ev in ncs]
